@@ -225,7 +225,7 @@ def run(run):
     for n in range(1, 12):
         add(run, {'variant': 'rtu', 'n': n, 'events': [('reply', k) for k in range(n)], 'group': 1, 'units': [1]}, ('rtu-inorder', n > 1))
     # random permutations, larger N, injections, loss at every point
-    for i in range(run.scale(900, 20000)):
+    for i in range(run.scale(900, 400000)):
         n = r.choice([2, 3, 5, 8, 20, 50, 300]) if i % 20 == 0 else r.choice([2, 3, 4, 5, 8])
         perm = list(range(n))
         r.shuffle(perm)
